@@ -4,6 +4,7 @@ use std::rc::Rc;
 
 use rustc_hash::{FxHashMap, FxHashSet};
 
+use crate::add_type_annotation::annotation_src;
 use crate::checks::type_checker::check_types;
 use crate::env::Env;
 use crate::eval::load_toplevel_items;
@@ -181,19 +182,17 @@ fn extracted_fun_src(
     body_end: usize,
     params: &[(SymbolName, Option<Type>)],
 ) -> String {
-    let return_signature = match return_ty {
-        Some(Type::Any) | None => "".to_owned(),
-        Some(Type::Error { inferred_type, .. }) => match inferred_type {
-            Some(ty) => format!(": {ty}"),
-            None => "".to_owned(),
-        },
-        Some(ty) => format!(": {ty}"),
+    // Only write the hints that can be written: an unknown or partly
+    // unknown type has no source form.
+    let return_signature = match return_ty.and_then(annotation_src) {
+        Some(ty_src) => format!(": {ty_src}"),
+        None => "".to_owned(),
     };
 
     let params_signature = params
         .iter()
-        .map(|(param, ty)| match ty {
-            Some(ty) => format!("{}: {}", param.text, ty),
+        .map(|(param, ty)| match ty.as_ref().and_then(annotation_src) {
+            Some(ty_src) => format!("{}: {}", param.text, ty_src),
             None => param.text.to_owned(),
         })
         .collect::<Vec<_>>()
